@@ -29,7 +29,7 @@ def sxInt : Sx → Option Int | .atom s => s.toInt? | _ => none
 def sxNat : Sx → Option Nat | .atom s => s.toNat? | _ => none
 
 def scanLinP (b : Int) (acc x : Int) : Int := (acc * b + x) % 1000003
-def rangeFrom (a : Int) (n : Nat) : List Int := (List.range n).map (fun i => a + (i : Int))
+def rangeFrom (a : Int) (n : Nat) : List Int := (List.range n).map (fun (i : Nat) => a + Int.ofNat i)
 
 /-- unbounded sources are modelled by a list far longer than any demand the generator produces -/
 def infLen : Nat := 2000
